@@ -122,16 +122,23 @@ def native_identity(a):
 def invoke(S, fn, *args, **kw):
     """Call the real function; any *additional required* parameter it has on this tree (beyond what the
     contract knows) is universally quantified (a fresh symbolic string), so the contract stays meaningful
-    when a signature grows."""
+    when a signature grows.  The extra arguments are returned in ``outcome.extras``."""
     sig = inspect.signature(fn)
-    names = list(sig.parameters)
     extra = {}
     for i, (n, p) in enumerate(sig.parameters.items()):
         if i < len(args) or n in kw or p.default is not inspect.Parameter.empty or p.kind in (p.VAR_POSITIONAL, p.VAR_KEYWORD):
             continue
         extra[n] = S.str(f"{fn.__name__}.{n}")
-    del names
-    return S.outcome(fn, *args, **kw, **extra)
+    out = S.outcome(fn, *args, **kw, **extra)
+    out.extras = extra
+    return out
+
+
+def aad_for(S, fn, auth, extras):
+    """The AAD function applied to ``auth`` and to the same-named extra arguments of the site under test (a site
+    that binds more context, e.g. its method name, into the AAD is compared with the AAD for that same context)."""
+    params = inspect.signature(fn).parameters
+    return S.outcome(fn, auth, **{n: v for n, v in extras.items() if n in params})
 
 
 def native_invoke(fn, *args, **kw):
@@ -202,14 +209,14 @@ def aad_unit(which):
     return run
 
 
-for _w, _t in (("cursor", "L2 cursor AAD is injective in the identity"), ("call", "L2 call AAD is injective in the identity"), ("cross", "L3 cursor and call AADs never coincide")):
+for _which, _title in (("cursor", "L2 cursor AAD is injective in the identity"), ("call", "L2 call AAD is injective in the identity"), ("cross", "L3 cursor and call AADs never coincide")):
     unit(
-        f"C12.{_t} (=> L8: a token that opens was minted for the same identity and is of the same kind)",
+        f"C12.{_title} (=> L8: a token that opens was minted for the same identity and is of the same kind)",
         targets=["vgi_rpc/http/server/_state_token.py::_compute_aad", "vgi_rpc/http/server/_state_token.py::_compute_call_aad"],
         replay=replay_aad,
         search=search_aad,
         min_obligations=30,
-    )(aad_unit(_w))
+    )(aad_unit(_which))
 
 
 # ------------------------------------------------------------------------------------------
@@ -676,8 +683,6 @@ def open_any(kind):
             pos = pos + 4 + seg.length()
         S.oblige(f"O4.{kind}.segments_tile_the_plaintext", pos == n)
         S.oblige(f"O5.{kind}.accepted_only_within_ttl", Or(ttl <= 0, now - created_of(plain) <= ttl))
-        if kind == "cursor":
-            S.canary(f"O5.{kind}.canary.accepted_only_when_fresh", now <= created_of(plain))
 
     return run
 
@@ -946,13 +951,13 @@ def mint_sites(S):
         call_id = S.bytes("call_id")
         out = invoke(S, st._mint_cursor_token, SObj(None, kind="State"), SObj(None, kind="Info"), call_id, key, auth)
         evs = S.events("seal_cursor")
-        want_aad = invoke(S, st._compute_aad, auth).value
+        want_aad = aad_for(S, st._compute_aad, auth, out.extras).value
     else:
         cs = SObj(_CallStateStub) if which == "call" else None
         S.handlers["_CallStateStub.serialize_to_bytes"] = lambda S, o: S.bytes("call_state_bytes")
         out = invoke(S, st._mint_call_token, cs, SObj(None, kind="Schema"), SObj(None, kind="Schema"), key, auth, S.str("stream_id"))
         evs = S.events("seal_call")
-        want_aad = invoke(S, st._compute_call_aad, auth).value
+        want_aad = aad_for(S, st._compute_call_aad, auth, out.extras).value
     S.oblige(f"O2.{which}.mint_seals_exactly_once", out.returned and len(evs) == 1, kind="trace")
     if not (out.returned and len(evs) == 1):
         return
@@ -1089,15 +1094,15 @@ def install_recovery_world(S, cache_outcomes=("hit", "miss")):
     return W
 
 
-def check_resolution_order(S, trace, app_key, app_ttl, auth, token, call_token, prefix="O6"):
+def check_resolution_order(S, trace, app_key, app_ttl, auth, token, call_token, prefix="O6", extras=None):
     """Trace obligations shared by the O6 unit and C13's harness."""
     names = [e[0] for e in trace]
     opens = [i for i, n in enumerate(names) if n == "open_cursor_ok"]
     first_protected = next((i for i, n in enumerate(names) if n in PROTECTED), None)
     if first_protected is not None:
         S.oblige(f"{prefix}.cursor_token_opened_before_any_lookup_deserialisation_or_hook", bool(opens) and opens[0] < first_protected, kind="trace", witness=names[first_protected])
-    want_aad = invoke(S, st._compute_aad, auth)
-    want_call_aad = invoke(S, st._compute_call_aad, auth)
+    want_aad = aad_for(S, st._compute_aad, auth, extras or {})
+    want_call_aad = aad_for(S, st._compute_call_aad, auth, extras or {})
     for e in trace:
         if e[0] in ("open_cursor_ok", "open_cursor_rejected"):
             S.oblige(f"{prefix}.cursor_opened_under_the_server_key_the_requests_own_aad_and_the_ttl", And(e[1] is token, e[2] is app_key, eq(e[3], want_aad.value), e[4] is app_ttl), kind="trace")
@@ -1136,7 +1141,7 @@ def resolution_order(S):
     call_token = S.bytes("call_token") if S.choose(2) == 0 else None
     info = SObj(None, kind="StateInfo")
     out = invoke(S, aps._unpack_and_recover_state, app, token, call_token, info, auth)
-    ok, call_ok, puts = check_resolution_order(S, S.trace, key, ttl, auth, token, call_token)
+    ok, call_ok, puts = check_resolution_order(S, S.trace, key, ttl, auth, token, call_token, extras=out.extras)
     names = [e[0] for e in S.trace]
     S.oblige("O6.cursor_token_is_always_examined_first", names[:1] in (["open_cursor_ok"], ["open_cursor_rejected"]), kind="trace")
     if out.raised:
@@ -1235,7 +1240,6 @@ def envelope(S):
         out = S.outcome(crypto.open_bytes, tok, key2, aad=aad2, version=v2)
         if out.raised:
             S.oblige("O8.open_rejects_only_with_SealError", exc_is(out.exc, crypto.SealError), kind="raises")
-            S.canary("O8.canary.open_rejects_only_short_tokens", tok.length() < 41)
             return
         ev = S.events("aead_open")
         S.oblige("O8.open_accepts_only_what_the_aead_accepts", len(ev) == 1, kind="trace")
@@ -1248,6 +1252,7 @@ def envelope(S):
     sealed = S.outcome(crypto.seal_bytes, payload, key, aad=aad, version=version)
     if sealed.raised:
         S.oblige("O8.seal_rejects_only_a_version_outside_one_byte", exc_is(sealed.exc, ValueError) and Not(And(version >= 0, version <= 255)), kind="raises")
+        S.canary("O8.canary.seal_rejects_only_negative_versions", version < 0)
         return
     tok = sealed.value
     S.oblige("O8.seal_uses_the_normalised_key_and_the_aad", And(eq(G["key"], nk_spec(key)), G["aad"] is aad, G["payload"] is payload, G["nonce"].length() == 24))
@@ -1255,3 +1260,358 @@ def envelope(S):
     # composition: lemmas L0.opener_slice_of_an_envelope_is_its_* (context-free, unit L0) shows the opener's slices of this envelope
     # are the sealed nonce and body; with the opener's contract above and the AEAD contract the own token opens iff the
     # normalised key, the AAD and the (unauthenticated) version byte agree
+
+
+# ------------------------------------------------------------------------------------------
+# O6b: _run_stream_exchange_sync — process / on_cancel / the producer turn only after the cursor token opened
+# (the harness is shared with C13, which adds the minting phase)
+# ------------------------------------------------------------------------------------------
+
+import uuid  # noqa: E402
+
+from pyarrow import ipc as pa_ipc  # noqa: E402
+
+from vgi_rpc.metadata import CALL_STATE_KEY, CANCEL_KEY, STATE_KEY  # noqa: E402
+from vgi_rpc.rpc import _common as rpc_common  # noqa: E402
+
+USER_CODE = ("process", "on_cancel", "producer_turn")
+
+
+def quiet_hooks(S):
+    """C13's harness follows the accepting paths only: hooks and library calls succeed."""
+    S.ghost["hooks_never_fail"] = True
+
+
+_hook = hook
+
+
+def hook(S, name, *args, exc=RuntimeError):  # noqa: F811 - same contract, optional quiet mode
+    if S.ghost.get("hooks_never_fail"):
+        S.event(name, *args)
+        return
+    _hook(S, name, *args, exc=exc)
+
+
+def install_dispatch_world(S, app, auth):
+    """The parts of the HTTP dispatch shells that have nothing to do with tokens, by contract."""
+    S.handlers[aps.CallStatistics] = lambda S: SObj(None, kind="Stats")
+    S.handlers[aps._current_call_stats.set] = lambda S, v: "stats_token"
+    S.handlers[aps._current_call_stats.reset] = lambda S, v: None
+    S.handlers[aps._current_stream_id.set] = lambda S, v: None
+    S.handlers["StateTypes.get"] = lambda S, m, name: app.fields["_state_info"]
+    S.handlers["Methods.get"] = lambda S, m, name: app.fields["_info"]
+    S.handlers["_get_auth_and_metadata"] = lambda S: (auth, SObj(None, kind="TransportMetadata"))
+    S.handlers["_record_input"] = lambda S, b: None
+    S.handlers["_record_output"] = lambda S, b: None
+    S.handlers[aps._ClientLogSink] = lambda S, **kw: SObj(None, kind="Sink")
+    S.handlers["Sink.flush_contents"] = lambda S, s, w, sch: None
+    S.handlers[aps.CallContext] = lambda S, **kw: SObj(None, kind="Ctx", method_name=kw.get("method_name"), auth=kw.get("auth"))
+    S.handlers["_dispatch_telemetry"] = lambda S, app_, **kw: SObj(None, kind="Telemetry", outcome=SObj(None, kind="Outcome"))
+    S.handlers["Telemetry.__enter__"] = lambda S, t: t.fields["outcome"]
+    S.handlers["Telemetry.__exit__"] = lambda S, t, *a: False
+    S.handlers["new_ipc_stream"] = lambda S, sink, schema: SObj(None, kind="IpcStream", writer=SObj(None, kind="Writer"))
+    S.handlers["IpcStream.__enter__"] = lambda S, c: c.fields["writer"]
+    S.handlers["IpcStream.__exit__"] = lambda S, c, *a: False
+    S.handlers["Writer.write_batch"] = lambda S, w, batch, custom_metadata=None: S.event("response_batch", custom_metadata)
+    S.handlers["empty_batch"] = lambda S, schema: SObj(None, kind="Batch")
+    S.handlers[pa.KeyValueMetadata] = lambda S, d: SObj(None, kind="ResponseMetadata", items=d)
+    S.handlers["Schema.__eq__"] = lambda S, a, b: S.ghost["is_producer"]
+
+
+def mk_dispatch_app(S):
+    app, key, ttl, impl = mk_app(S)
+    server = app.fields["_server"]
+    server.fields.update(server_id="srv", protocol_name="P", transport_kind=S.opaque("kind", "TransportKind"), external_config=None, _protocol_version_parts=None, methods=SObj(None, kind="Methods"), ctx_methods=SObj(None, kind="CtxMethods"))
+    app.fields.update(_state_types=SObj(None, kind="StateTypes"), _state_info=SObj(None, kind="StateInfo"), _info=SObj(None, kind="MethodInfo", header_type=None, name="m", param_types={}, param_defaults={}, params_schema=None, method_type=SObj(None, kind="MT", value="stream")))
+    return app, key, ttl, impl
+
+
+def run_exchange(S, app, method_name, token, call_token, cancel):
+    """Drive the real _run_stream_exchange_sync for a request carrying the given tokens."""
+
+    def kv_get(S, cm, k):
+        return {STATE_KEY: token, CALL_STATE_KEY: call_token, CANCEL_KEY: (b"1" if cancel else None)}.get(k)
+
+    S.handlers[pa_ipc.open_stream] = lambda S, stream: SObj(None, kind="IpcReader")
+    S.handlers[aps.ValidatedReader] = lambda S, r, v: SObj(None, kind="Reader")
+    S.handlers["Reader.read_next_batch_with_custom_metadata"] = lambda S, r: (SObj(None, kind="Batch"), SObj(None, kind="KVMeta"))
+    S.handlers["KVMeta.get"] = kv_get
+    S.handlers["State.on_cancel"] = lambda S, st_, ctx: hook(S, "on_cancel", st_)
+    S.handlers["_run_http_producer_turn"] = lambda S, app_, **kw: (S.event("producer_turn", kw["state"], kw["method_name"]), SObj(None, kind="Body"))[1]
+    S.handlers["_run_http_exchange_turn"] = lambda S, app_, **kw: (S.event("process", kw["state"], kw["method_name"]), SObj(None, kind="Body"))[1]
+    S.inline.add("_unpack_and_recover_state")
+    return S.outcome(aps._run_stream_exchange_sync, app, method_name, SObj(None, kind="HttpBody"))
+
+
+@unit(
+    "C12.O6b _run_stream_exchange_sync: process / on_cancel / producer turn only after the cursor token opened for the request's identity",
+    targets=["vgi_rpc/http/server/_app_stream.py::_run_stream_exchange_sync", "vgi_rpc/http/server/_app_stream.py::_unpack_and_recover_state"],
+    min_obligations=100,
+    max_paths=6000,
+)
+def exchange_order(S):
+    S.prune_lia = True
+    install_clock(S)
+    cursor = ["accept", "reject"][S.choose(2)]
+    install_token_openers(S, cursor_outcomes=(cursor,), call_outcomes=("accept", "reject"))
+    if cursor == "accept":
+        quiet_hooks(S)  # the failing-hook paths of the recovery are unit O6's; here: what runs after an accepted token
+    W = install_recovery_world(S)
+    app, key, ttl, impl = mk_dispatch_app(S)
+    shape = ["none", "dp"][S.choose(2)]
+    auth, ident = mk_auth(S, "1", shape)
+    install_dispatch_world(S, app, auth)
+    S.ghost["is_producer"] = S.choose(2) == 1
+    cancel = S.choose(2) == 1
+    token = S.bytes("token") if S.choose(2) == 0 else None
+    call_token = S.bytes("call_token") if S.choose(2) == 0 else None
+    method = S.str("method_name")
+    out = run_exchange(S, app, method, token, call_token, cancel)
+    names = [e[0] for e in S.trace]
+    if token is not None:
+        check_resolution_order(S, S.trace, key, ttl, auth, token, call_token, prefix="O6b", extras={"method_name": method})
+    ok = [i for i, n in enumerate(names) if n == "open_cursor_ok"]
+    for i, e in enumerate(S.trace):
+        if e[0] in USER_CODE:
+            S.oblige("O6b.user_code_runs_only_after_the_cursor_token_opened", bool(ok) and ok[0] < i, kind="trace", witness=e[0])
+            S.oblige("O6b.user_code_gets_the_state_rebuilt_from_the_authenticated_token", e[1] is W["state"], kind="trace")
+    if token is None:
+        S.oblige("O6b.missing_token_is_rejected_before_anything_runs", out.raised and is_400(out.exc) and not names, kind="trace")
+    if not ok:
+        S.oblige("O6b.no_user_code_without_an_opened_cursor_token", not any(n in USER_CODE or n in PROTECTED for n in names), kind="trace")
+        S.oblige("O7.rejected_request_is_http_400", out.raised and is_400(out.exc), kind="raises")
+    elif out.returned:
+        ran = [n for n in names if n in USER_CODE]
+        want = ["on_cancel"] if cancel else (["producer_turn"] if S.ghost["is_producer"] else ["process"])
+        S.oblige("O6b.accepted_request_runs_exactly_its_branch", ran == want, kind="trace")
+    S.canary("O6b.canary.cancel_never_runs_user_code", SBool(z3.BoolVal("on_cancel" not in names)))
+
+
+# ------------------------------------------------------------------------------------------
+# L8 end to end: tokens minted by the real /init path for identity 1 (method m1), presented to the real
+# /exchange path as identity 2 (method m2); the AEAD contract decides on key and AAD equality only.
+# Shared with C13 (which states the method clause on the same harness).
+# ------------------------------------------------------------------------------------------
+
+IDENT = z3.Concat(
+    z3.Union(z3.Range("a", "z"), z3.Range("A", "Z"), z3.Re("_")),
+    z3.Star(z3.Union(z3.Range("a", "z"), z3.Range("A", "Z"), z3.Range("0", "9"), z3.Re("_"))),
+)
+
+
+def is_identifier(s):
+    return SBool(z3.InRe(s.t, IDENT))
+
+
+def mint_then_exchange(S, shapes=("none", "dp"), vary=True, same_shape=False, on_accept=None):
+    S.prune_lia = True
+    install_clock(S)
+    quiet_hooks(S)
+    m1, m2 = S.str("minting_method"), S.str("exchange_method")
+    S.assume(And(is_identifier(m1), is_identifier(m2)))  # stream methods are Python identifiers
+    sh1 = shapes[S.choose(len(shapes))]
+    a1, i1 = mk_auth(S, "1", sh1)
+    a2, i2 = mk_auth(S, "2", sh1 if same_shape else shapes[S.choose(len(shapes))])
+    S.assume(And(nul_free(i1[1]), nul_free(i2[1])))
+    app, key, ttl, impl = mk_dispatch_app(S)
+    # ---- phase A: POST /m1/init as identity 1 (the real init shell and mint functions; sealing by contract)
+    install_dispatch_world(S, app, a1)
+    install_seal_contracts(S)
+    S.inline.update({"_mint_call_token", "_mint_cursor_token", "_run_http_exchange_init", "_ResolvedCall"})
+    S.ghost["is_producer"] = False  # an exchange stream: /init answers with the two tokens
+    S.handlers["_read_request"] = lambda S, stream, v, ext=None: (m1, {})
+    for nm in ("_deserialize_params", "_validate_call_signature", "_validate_params"):
+        S.handlers[nm] = lambda S, *a, **k: None
+    S.handlers["CtxMethods.__contains__"] = lambda S, c, x: False
+    S.handlers[uuid.uuid4] = lambda S: SObj(None, kind="UUID", hex=S.str("stream_id"))
+    result = SObj(None, kind="StreamResult", call_state=None, output_schema=SObj(None, kind="Schema"), input_schema=SObj(None, kind="Schema"), state=SObj(None, kind="InitState"), header=None)
+
+    def getattr_(S, obj, name, *default):
+        if isinstance(name, SStr):
+            S.event("init_method_lookup", obj, name)
+            return SObj(None, kind="ImplMethod")
+        return models.b_getattr(S.interp, obj, name, *default)
+
+    S.handlers[getattr] = getattr_
+    S.handlers["ImplMethod.__call__"] = lambda S, f, **kw: result
+    S.handlers["Cache.put"] = lambda S, c, call_id, auth, resolved, now: S.event("cache.put", call_id, auth, resolved)
+    S.handlers[os.urandom] = lambda S, k: _fresh_bytes(S, "call_id", k)
+    S.handlers["Schema.serialize"] = lambda S, o: SObj(None, kind="Buf")
+    S.handlers["Buf.to_pybytes"] = lambda S, o: S.bytes("schema_bytes")
+    S.handlers["_serialize_state_bytes"] = lambda S, state, info: S.bytes("minted_state_bytes")
+    minted = S.outcome(aps._run_stream_init_sync, app, m1, app.fields["_info"], SObj(None, kind="HttpBody"))
+    cur, call = S.events("seal_cursor"), S.events("seal_call")
+    R = dict(m1=m1, m2=m2, i1=i1, i2=i2, a1=a1, a2=a2, key=key, ttl=ttl, minted=minted, cur=cur, call=call, response=S.events("response_batch"))
+    if not (minted.returned and len(cur) == 1 and len(call) == 1):
+        return R
+    _, ctok, cstate, ccall_id, ckey, caad, ccreated = cur[0]
+    _, ktok, kcs, kcall_id, kkey, kaad, kcreated, ksid = call[0]
+    # ---- phase B: POST /m2/exchange as identity 2 carrying those tokens.  Idealised AEAD: a token opens iff it is
+    # presented under the key and AAD it was sealed with (its fields are then the sealed ones); otherwise HTTP 400.
+    start = len(S.trace)
+    install_dispatch_world(S, app, a2)
+
+    def open_cursor(S, token, token_key, aad, token_ttl=0):
+        if token is ctok and S.fork(And(eq(token_key, ckey), eq(aad, caad))):
+            S.event("open_cursor_ok", token, token_key, aad, token_ttl, cstate, ccall_id)
+            if on_accept is not None:
+                # stated where the AEAD accepted, before the request branches further: the query is the same for every
+                # continuation of this prefix (solved once), and S.lemma hands the fact to the obligations that follow
+                on_accept(S, R)
+            return (cstate, ccall_id)
+        S.event("open_cursor_rejected", token, token_key, aad, token_ttl)
+        raise PyRaise(rpc_400("token rejected"))
+
+    def open_call(S, token, token_key, aad, token_ttl=0):
+        S.event("open_call", token, token_key, aad, token_ttl)
+        if token is ktok and S.fork(And(eq(token_key, kkey), eq(aad, kaad))):
+            r = (kcs, "", S.bytes("schema_bytes_out"), S.bytes("schema_bytes_in"), kcall_id, ksid)
+            S.event("open_call_ok", token, token_key, aad, token_ttl, r)
+            return r
+        raise PyRaise(rpc_400("token rejected"))
+
+    S.handlers["_open_cursor_token"] = open_cursor
+    S.handlers["_open_call_token"] = open_call
+    S.inline.update({"_compute_aad", "_compute_call_aad"})
+    R["W"] = install_recovery_world(S)
+    S.ghost["is_producer"] = vary and S.choose(2) == 1
+    cancel = vary and S.choose(2) == 1
+    with_call_token = not vary or S.choose(2) == 0
+    S.inputs.update(is_producer=S.ghost["is_producer"], cancel=cancel, with_call_token=with_call_token)
+    R["out"] = run_exchange(S, app, m2, ctok, ktok if with_call_token else None, cancel)
+    R["trace_b"] = S.trace[start:]
+    R["ran"] = [e for e in R["trace_b"] if e[0] in USER_CODE]
+    return R
+
+
+from dataclasses import dataclass as _dataclass  # noqa: E402
+from typing import Protocol as _Protocol  # noqa: E402
+
+from vgi_rpc.rpc import AnnotatedBatch, CallContext, ExchangeState, OutputCollector, RpcServer, Stream  # noqa: E402
+
+_SEEN: list = []
+_ACC_SCHEMA = pa.schema([pa.field("value", pa.int64())])
+
+
+@_dataclass
+class _Acc(ExchangeState):
+    owner: str
+    total: int
+
+    def exchange(self, input: AnnotatedBatch, out: OutputCollector, ctx: CallContext) -> None:  # noqa: A002
+        self.total += sum(input.batch.column("value").to_pylist())
+        _SEEN.append((ctx._method_name, self.owner, self.total, ctx.auth.principal))
+        out.emit_arrays([pa.array([self.total], type=pa.int64())])
+
+
+class _TwoMethods(_Protocol):
+    def a(self, start: int) -> Stream[ExchangeState]: ...
+
+    def b(self, start: int) -> Stream[ExchangeState]: ...
+
+
+class _TwoMethodsImpl:
+    def a(self, start: int) -> Stream[_Acc]:
+        return Stream(output_schema=_ACC_SCHEMA, state=_Acc(owner="a", total=start), input_schema=_ACC_SCHEMA)
+
+    def b(self, start: int) -> Stream[_Acc]:
+        return Stream(output_schema=_ACC_SCHEMA, state=_Acc(owner="b", total=start), input_schema=_ACC_SCHEMA)
+
+
+def native_two_method_app(token_key=b"k" * 32, cache_entries=4096, authenticate=None):
+    """A real HTTP app with two exchange-stream methods of identical state type (native replay of L8 / C13)."""
+    from vgi_rpc.http._testing import make_sync_client
+
+    client = make_sync_client(RpcServer(_TwoMethods, _TwoMethodsImpl()), token_key=token_key, call_state_cache_entries=cache_entries, authenticate=authenticate)
+    return client, _SEEN, _ACC_SCHEMA
+
+
+def native_init(client, method, start, headers=None):
+    from io import BytesIO
+
+    from vgi_rpc.metadata import REQUEST_VERSION, REQUEST_VERSION_KEY, RPC_METHOD_KEY
+    from vgi_rpc.utils import IpcValidation, ValidatedReader
+
+    sch = pa.schema([pa.field("start", pa.int64(), nullable=False)])
+    buf = BytesIO()
+    md = pa.KeyValueMetadata({RPC_METHOD_KEY: method.encode(), REQUEST_VERSION_KEY: REQUEST_VERSION})
+    with pa_ipc.new_stream(buf, sch) as w:
+        w.write_batch(pa.RecordBatch.from_pydict({"start": [start]}, schema=sch), custom_metadata=md)
+    r = client.post(f"http://t/{method}/init", content=buf.getvalue(), headers={"Content-Type": "application/vnd.apache.arrow.stream", **(headers or {})})
+    if r.status_code != 200:
+        raise RuntimeError(f"/init failed: {r.status_code}")
+    _, cm = ValidatedReader(pa_ipc.open_stream(BytesIO(r.content)), IpcValidation.NONE).read_next_batch_with_custom_metadata()
+    return cm.get(STATE_KEY), cm.get(CALL_STATE_KEY)
+
+
+def native_exchange(client, schema, method, token, call_token, value, headers=None):
+    from io import BytesIO
+
+    buf = BytesIO()
+    md = {STATE_KEY: token}
+    if call_token is not None:
+        md[CALL_STATE_KEY] = call_token
+    with pa_ipc.new_stream(buf, schema) as w:
+        w.write_batch(pa.RecordBatch.from_pydict({"value": [value]}, schema=schema), custom_metadata=pa.KeyValueMetadata(md))
+    r = client.post(f"http://t/{method}/exchange", content=buf.getvalue(), headers={"Content-Type": "application/vnd.apache.arrow.stream", **(headers or {})})
+    return r.status_code
+
+
+def replay_end_to_end(inputs, ob):
+    """Mint at /a/init as identity 1, present at /<a or b>/exchange as identity 2; user code must run only for the
+    same identity and the same method."""
+    from vgi_rpc.rpc import AuthContext as AC
+
+    m1, m2 = inputs.get("minting_method", "a"), inputs.get("exchange_method", "b")
+    same_method = m1 == m2
+    ids = []
+    for tag in ("1", "2"):
+        ids.append(native_auth(inputs.get(f"shape{tag}", "none"), inputs.get(f"domain{tag}"), inputs.get(f"principal{tag}")))
+    if any(a is not None and a.authenticated and "\x00" in (a.domain or "") for a in ids):
+        return ReplayResult(False, "model domain contains NUL")
+    who = {"1": ids[0], "2": ids[1]}
+
+    def authenticate(req):
+        a = who[req.get_header("X-Who") or "1"]
+        return a if a is not None else AC.anonymous()
+
+    lines, bad = [], False
+    for cache_entries in (4096, 0):
+        client, seen, schema = native_two_method_app(cache_entries=cache_entries, authenticate=authenticate)
+        try:
+            tok, call = native_init(client, "a", 7, headers={"X-Who": "1"})
+            seen.clear()
+            target = "a" if same_method else "b"
+            status = native_exchange(client, schema, target, tok, call, 0, headers={"X-Who": "2"})
+        finally:
+            client.close()
+        same_id = native_identity(ids[0]) == native_identity(ids[1])
+        violated = bool(seen) and not (same_method and same_id)
+        bad = bad or violated
+        lines.append(f"cache_entries={cache_entries}: tokens of /a (identity {native_identity(ids[0])}) at /{target}/exchange as {native_identity(ids[1])} -> HTTP {status}, process() calls (method, state owner, total, principal) = {seen}")
+    return ReplayResult(bad, "; ".join(lines))
+
+
+@unit(
+    "C12.L8 end to end: tokens minted by /init for one identity reach user code at /exchange only for the same identity",
+    targets=["vgi_rpc/http/server/_app_stream.py::_run_stream_init_sync", "vgi_rpc/http/server/_app_stream.py::_run_stream_exchange_sync", "vgi_rpc/http/server/_state_token.py::_mint_cursor_token", "vgi_rpc/http/server/_state_token.py::_mint_call_token"],
+    replay=replay_end_to_end,
+    min_obligations=30,
+    max_paths=3000,
+)
+def end_to_end_identity(S):
+    def accepted(S, R):
+        S.lemma("L8.a_cursor_token_opens_only_for_the_identity_it_was_minted_for", same_identity(R["i1"], R["i2"]))
+
+    R = mint_then_exchange(S, vary=False, on_accept=accepted)  # continuation / exchange / cancel variants: C12.O6b and C13
+    S.oblige("L8.init_mints_one_cursor_and_one_call_token", R["minted"].returned and len(R["cur"]) == 1 and len(R["call"]) == 1, kind="trace")
+    if "out" not in R:
+        return
+    cur, call = R["cur"][0], R["call"][0]
+    S.oblige("L8.both_tokens_sealed_under_the_server_key_at_the_minting_time", And(cur[4] is R["key"], call[4] is R["key"], eq(cur[6], call[6])), kind="trace")
+    S.oblige("L8.cursor_token_carries_the_call_id_of_its_call_token", cur[3] is call[3], kind="trace")
+    resp = [e[1] for e in R["response"] if e[1] is not None]
+    S.oblige("L8.init_response_carries_exactly_the_two_sealed_tokens", len(resp) == 1 and isinstance(resp[0], SObj) and resp[0].fields["items"].get(STATE_KEY) is cur[1] and resp[0].fields["items"].get(CALL_STATE_KEY) is call[1], kind="trace")
+    for e in R["ran"]:
+        S.oblige("L8.user_code_runs_only_for_the_minting_identity", same_identity(R["i1"], R["i2"]), witness=e[0])
+    S.canary("L8.canary.minted_tokens_never_reach_user_code", SBool(z3.BoolVal(not R["ran"])))
